@@ -10,7 +10,7 @@ typedef struct { const void *src; size_t size; size_t pos; } ZSTD_inBuffer;
 typedef struct { void *dst; size_t size; size_t pos; } ZSTD_outBuffer;
 typedef enum { ZSTD_e_continue = 0, ZSTD_e_flush = 1, ZSTD_e_end = 2 } ZSTD_EndDirective;
 typedef struct { toy_enc_t e; } ZSTD_CStream;
-typedef struct { toy_dec_t d; } ZSTD_DStream;
+typedef struct { toy_dec_t d; int bad; /* sticky error, see zlib.h */ } ZSTD_DStream;
 
 static ZSTD_CStream *ZSTD_createCStream(void)
 {
@@ -48,11 +48,14 @@ static size_t ZSTD_compressStream2(ZSTD_CStream *c, ZSTD_outBuffer *o, ZSTD_inBu
 static size_t ZSTD_decompressStream(ZSTD_DStream *d, ZSTD_outBuffer *o, ZSTD_inBuffer *i)
 {
 	size_t cn, pr;
-	int r = toy_dec_step(&d->d, (const unsigned char *)i->src + i->pos, i->size - i->pos,
+	int r;
+	if (d->bad)
+		return toy_zstd_errcode();
+	r = toy_dec_step(&d->d, (const unsigned char *)i->src + i->pos, i->size - i->pos,
 			     (unsigned char *)o->dst + o->pos, o->size - o->pos, 0, &cn, &pr);
 	i->pos += cn; o->pos += pr;
 	if (r == TOY_END) return 0;
-	if (r == TOY_ERR) return toy_zstd_errcode();
+	if (r == TOY_ERR) { d->bad = 1; return toy_zstd_errcode(); }
 	return 1;
 }
 #endif
